@@ -83,7 +83,12 @@ namespace nmtools::index
             // TODO: provide overload that already compute strides
             auto strides = compute_strides(shape);
             auto dst_i   = at(index,0);
-            auto offset  = at(indices,dst_i);
+            // a negative entry counts from the end (of the flattened array)
+            auto offset  = static_cast<nm_index_t>(at(indices,dst_i));
+            if (offset < 0) {
+                // number of elements = outermost stride * outermost extent
+                offset += static_cast<nm_index_t>(at(strides,0)) * static_cast<nm_index_t>(at(shape,0));
+            }
             impl::compute_indices(res, offset, shape, strides);
         }
         else {
@@ -94,7 +99,13 @@ namespace nmtools::index
             }
             auto take_impl = [&](auto i){
                 auto dst_i = at(index,i);
-                at(res, i) = (static_cast<nm_index_t>(i) == normalized_axis) ? at(indices,dst_i) : dst_i;
+                if (static_cast<nm_index_t>(i) == normalized_axis) {
+                    // a negative entry counts from the end
+                    auto src_i = static_cast<nm_index_t>(at(indices,dst_i));
+                    at(res, i) = (src_i < 0) ? src_i + static_cast<nm_index_t>(at(shape,i)) : src_i;
+                } else {
+                    at(res, i) = dst_i;
+                }
             };
             if constexpr (meta::is_fixed_index_array_v<index_t>) {
                 constexpr auto DIM = meta::len_v<index_t>;
